@@ -53,6 +53,14 @@ pub fn run_one(
             };
             let (adm, adm_share) = match profile.name {
                 "ADM" => (crate::actors_adm::AdmSwarm::adm(&mut rng), rng.range(250, 600) as u32),
+                // venue banks under operator churn: bank states flipped, pauses, freezes
+                "INTEGADM" => {
+                    if rng.chance(1, 2) {
+                        (crate::actors_adm::AdmSwarm::adm(&mut rng), rng.range(150, 400) as u32)
+                    } else {
+                        (crate::actors_adm::AdmSwarm::pause(&mut rng), rng.range(300, 600) as u32)
+                    }
+                }
                 "PAUSE" => (crate::actors_adm::AdmSwarm::pause(&mut rng), rng.range(400, 800) as u32),
                 "AUTH" => (crate::actors_adm::AdmSwarm::adm(&mut rng), rng.range(200, 400) as u32),
                 "EMI" => (crate::actors_adm::AdmSwarm::emi(&mut rng), rng.range(300, 600) as u32),
@@ -70,12 +78,14 @@ pub fn run_one(
             if (profile.name == "ADM" && ctx.rng.chance(1, 3)) || (profile.name == "MKT" && ctx.rng.chance(1, 10)) {
                 crate::actors_adm::drill_kill_bank(&mut sim, &mut ctx);
             }
-            let integ = if profile.name == "INTEG" { crate::actors_integ::setup(&mut sim, &mut ctx) } else { None };
+            let with_integ = profile.name.starts_with("INTEG") || (profile.name == "AUTH" && ctx.rng.chance(1, 3));
+            let integ = if with_integ { crate::actors_integ::setup(&mut sim, &mut ctx) } else { None };
+            let integ_only = profile.name == "INTEG";
             for _ in 0..steps {
                 match (&integ, profile.name) {
                     (Some(st), _) => {
                         crate::actors_integ::pre_step(&mut sim, &mut ctx, st);
-                        match ctx.rng.below(8) {
+                        match ctx.rng.below(if integ_only { 8 } else { 12 }) {
                             0..=2 => crate::actors_integ::step(&mut sim, &mut ctx, st),
                             3 => crate::actors_integ::borrow_step(&mut sim, &mut ctx, st),
                             _ => actors::step_mkt(&mut sim, &mut ctx),
